@@ -128,6 +128,10 @@ class Sym:
         #: name of the dataset variable; len(D) / D.shape[0] then stand for
         #: the length after the resize, off + len(data)
         self.dset = None
+        #: how `min(x, len(data))` is read: "full" – a tile that does not
+        #: reach the end (x <= len), "last" – the final, possibly partial
+        #: tile (x > len).  The tiling rule proves which case applies.
+        self.min_mode = "full"
         self.bind = {}
         self.special = special
         self.assigns = {}
@@ -191,6 +195,34 @@ class Sym:
                 self._busy.discard(node.id)
         if is_len_of(node, self.data_names):
             return self.L
+        if isinstance(node, ast.Call) and call_name(node) in (
+                "min", "np.minimum") and len(node.args) == 2 \
+                and not node.keywords:
+            a, b = self.rat(node.args[0]), self.rat(node.args[1])
+
+            def moves(e, depth=0):
+                # depends on a loop variable (through local definitions)
+                for n_ in ast.walk(e):
+                    if isinstance(n_, ast.Name):
+                        vals = self.assigns.get(n_.id, [])
+                        if any(isinstance(v_, tuple) and v_[0] == "loop"
+                               for v_ in vals):
+                            return True
+                        if depth < 5 and len(vals) == 1 and isinstance(
+                                vals[0], ast.AST) and moves(vals[0],
+                                                            depth + 1):
+                            return True
+                return False
+            ma, mb = moves(node.args[0]), moves(node.args[1])
+            if ma == mb:
+                raise AnalysisError(
+                    f"{self.func.name}: `{short(node, 40)}` is not "
+                    f"min(<tile end>, <bound>)")
+            x, bound = (a, b) if ma else (b, a)
+            # the tiling rule checks that the bound is len(data) and that
+            # full tiles end at start + chunk (<= len) – then this reading
+            # of min() is exact
+            return x if self.min_mode == "full" else bound
         if self.dset is not None and is_len_of(node, {self.dset}):
             return S("off") + self.L
         if isinstance(node, ast.BinOp) and isinstance(
@@ -641,7 +673,7 @@ def r11_frame(ctx, func, fr, sym, tag):
                         and isinstance(loop.target, ast.Name)):
                     raise AnalysisError(f"{func.name}: loop form around "
                                         f"`{short(st, 40)}` not recognised")
-                sym.bind[loop.target.id] = S("i")
+                sym.bind[loop.target.id] = _loop_value(sym, loop, S("i"))
             d_lo, d_hi, a, b = bounds()
             ok = (d_lo - off).same(a) and (d_hi - off).same(b)
             ctx.ob("R1.1", ok,
@@ -682,6 +714,91 @@ def r11_frame(ctx, func, fr, sym, tag):
 # ----------------------------------------------------------------------
 # R1.2
 
+def _loop_value(sym, loop, i):
+    """value of the loop variable in iteration `i` of `for v in range(..)`
+    (start + step * i); plain `i` for other loops"""
+    it = loop.iter
+    if isinstance(it, ast.Call) and call_name(it) == "range" \
+            and not it.keywords and len(it.args) == 3:
+        return sym.rat(it.args[0]) + sym.rat(it.args[2]) * i
+    if isinstance(it, ast.Call) and call_name(it) == "range" \
+            and not it.keywords and len(it.args) == 2:
+        return sym.rat(it.args[0]) + i
+    return i
+
+
+def _r12_stepped(ctx, func, sym, stores, tile, loop):
+    """`for lo in range(0, len, c)` with tile [lo, min(lo + c, len))"""
+    c, q, r = S("c"), S("q"), S("r")
+    L = sym.L
+    it = loop.iter
+    a0, stop, step = [sym.rat(x) for x in it.args]
+    ivar = loop.target.id
+
+    def at(val, mode):
+        sym.bind[ivar] = a0 + step * val
+        sym.min_mode = mode
+        try:
+            _, _, a, b = tile["bounds"]()
+        finally:
+            sym.bind[ivar] = a0 + step * S("i")
+            sym.min_mode = "full"
+        return a, b
+    i = S("i")
+    lo_i, hi_i = at(i, "full")
+    lo_0, _ = at(K(0), "full")
+    lo_n, _ = at(i + K(1), "full")
+    lo_q, hi_q = at(q, "last")
+    _, hi_q_full = at(q, "full")
+    rest = [s_ for s_ in stores if s_["loop"] is None and "bounds" in s_
+            and not s_["whole"]]
+    if rest:
+        raise AnalysisError(f"{func.name}: stepped chunk loop plus a "
+                            f"separate remainder store")
+    ok = lo_0.same(K(0))
+    ctx.ob("R1.2", ok, "the first tile starts at event 0" if ok else
+           f"the first tile starts at {show(lo_0)}", node=tile["stmt"],
+           label="tiles start at 0")
+    ok = hi_i.same(lo_n)
+    ctx.ob("R1.2", ok, "a full tile ends where the next tile starts (no "
+           "gap, no overlap)" if ok else f"tile i ends at {show(hi_i)} but "
+           f"tile i+1 starts at {show(lo_n)}", node=tile["stmt"],
+           label="tiles contiguous")
+    w = hi_i - lo_i
+    ok = w.same(c) and step.same(c)
+    ctx.ob("R1.2", ok, "full tiles have the chunk length and the loop "
+           "advances by it" if ok else f"tile width is {show(w)}, the loop "
+           f"advances by {show(step)}; chunk length is c",
+           node=tile["stmt"], label="tile width is chunk length")
+    ok = stop.same(L)
+    ctx.ob("R1.2", ok, "the loop starts a tile for every multiple of the "
+           "chunk length below len(data)" if ok else
+           f"the loop stops at {show(stop)}, not at len(data)", node=loop,
+           label="number of tiles")
+    ok = lo_q.same(c * q)
+    ctx.ob("R1.2", ok, "the last (partial) tile starts where the full "
+           "tiles end" if ok else f"the partial tile starts at "
+           f"{show(lo_q)}, the full tiles end at c*q", node=tile["stmt"],
+           label="remainder start")
+    if hi_q.same(hi_q_full) and not hi_q.same(L):
+        # no min(): the partial tile relies on slice clipping
+        raise AnalysisError(f"{func.name}: stepped chunk loop without "
+                            f"min(<end>, len(data)) – relies on clipping")
+    ok = hi_q.same(L)
+    ctx.ob("R1.2", ok, "the last (partial) tile ends at len(data)" if ok
+           else f"the partial tile ends at {show(hi_q)}, not at len(data)",
+           node=tile["stmt"], label="remainder end")
+    # range(0, len, c) has an iteration at c*q exactly when len % c > 0,
+    # and then min(c*q + c, c*q + r) = c*q + r because r < c
+    guards = [a for a in ancestors(tile["stmt"]) if isinstance(a, ast.If)
+              and any(a is x for x in walk(loop))]
+    ok = not guards
+    ctx.ob("R1.2", ok, "the partial tile is written exactly when "
+           "len % chunk > 0 (range semantics)" if ok else
+           f"the tile store is conditional (`{short(guards[0].test, 30)}`)",
+           node=tile["stmt"], label="remainder guard")
+
+
 def r12(ctx, func, fr, sym, stores):
     c, q, r = S("c"), S("q"), S("r")
     L = sym.L
@@ -697,9 +814,10 @@ def r12(ctx, func, fr, sym, stores):
             and not it.keywords and 1 <= len(it.args) <= 3):
         raise AnalysisError(f"{func.name}: chunk loop does not iterate a "
                             f"range")
-    if len(it.args) >= 2 and not sym.rat(it.args[0]).same(K(0)) \
-            or len(it.args) == 3 and not sym.rat(it.args[2]).same(K(1)):
-        raise AnalysisError(f"{func.name}: chunk loop range with start/step")
+    if len(it.args) == 3 and not sym.rat(it.args[2]).same(K(1)):
+        return _r12_stepped(ctx, func, sym, stores, tile, loop)
+    if len(it.args) >= 2 and not sym.rat(it.args[0]).same(K(0)):
+        raise AnalysisError(f"{func.name}: chunk loop range with a start")
     E = sym.rat(it.args[-1] if len(it.args) == 1 else it.args[1])
     ivar = loop.target.id
 
@@ -1535,6 +1653,77 @@ def fold_str_list(node, what):
     return out
 
 
+def reader_dispatch(repo, rel, func):
+    """{feature name: wrapper class} of a reader's __getitem__: gathered
+    from `key == "x"` / `key in ("x", ..)` branches that construct a
+    wrapper and from dictionary dispatch `TABLE[key](..)` /
+    `TABLE.get(key)(..)` with TABLE a local or module-level dict literal.
+    A dynamic call that cannot be resolved is an AnalysisError."""
+    disp = {}
+
+    def cls_name(e):
+        d = dotted(e)
+        return d.split(".")[-1] if d else None
+    for n in walk(func):
+        if isinstance(n, ast.If) and isinstance(n.test, ast.Compare) \
+                and len(n.test.ops) == 1:
+            t = n.test
+            keys = []
+            if isinstance(t.ops[0], ast.Eq):
+                k = const_str(t.comparators[0]) or const_str(t.left)
+                keys = [k] if k else []
+            elif isinstance(t.ops[0], ast.In):
+                c = deref(repo, rel, func, t.comparators[0]) if isinstance(
+                    t.comparators[0], ast.Name) else t.comparators[0]
+                if isinstance(c, (ast.List, ast.Tuple, ast.Set)):
+                    keys = [const_str(e) for e in c.elts if const_str(e)]
+            if not keys:
+                continue
+            for c in walk(ast.Module(body=n.body, type_ignores=[])):
+                if isinstance(c, ast.Call) and isinstance(
+                        c.func, (ast.Name, ast.Attribute)) and (
+                        cls_name(c.func) or "").startswith("H5"):
+                    for k in keys:
+                        disp.setdefault(k, cls_name(c.func))
+    # dictionary dispatch
+    for c in walk(func):
+        if not isinstance(c, ast.Call):
+            continue
+        f = c.func
+        table = None
+        if isinstance(f, ast.Subscript):
+            table = f.value
+        elif isinstance(f, ast.Call) and last_attr(f) == "get" \
+                and isinstance(f.func, ast.Attribute):
+            table = f.func.value
+        elif isinstance(f, ast.Name):
+            # wrapper = TABLE[key] / TABLE.get(key); wrapper(data)
+            try:
+                v = deref(repo, rel, func, f)
+            except AnalysisError:
+                v = f
+            if isinstance(v, ast.Subscript):
+                table = v.value
+            elif isinstance(v, ast.Call) and last_attr(v) == "get" \
+                    and isinstance(v.func, ast.Attribute):
+                table = v.func.value
+        if table is None:
+            continue
+        lit = deref(repo, rel, func, table) if isinstance(
+            table, ast.Name) else table
+        if not isinstance(lit, ast.Dict) or not all(
+                const_str(k) for k in lit.keys):
+            raise AnalysisError(f"{func.name}: dispatch table "
+                                f"`{short(table, 30)}` cannot be folded")
+        for k, v in zip(lit.keys, lit.values):
+            nm = cls_name(v)
+            if nm is None:
+                raise AnalysisError(f"{func.name}: dispatch entry "
+                                    f"'{const_str(k)}' not a class name")
+            disp[const_str(k)] = nm
+    return disp
+
+
 def r15(ctx, repo):
     wcls = repo.cls(WR, "RTDCWriter")
     bases_w = {"self.h5file"}
@@ -1623,15 +1812,7 @@ def r15(ctx, repo):
     if None in tr_groups:
         raise AnalysisError("store_feature: sub-group name not a constant")
     gi = repo.func(EV, "H5Events.__getitem__")
-    disp = {}
-    for n in walk(gi):
-        if isinstance(n, ast.If) and isinstance(n.test, ast.Compare) \
-                and isinstance(n.test.ops[0], ast.Eq) \
-                and const_str(n.test.comparators[0]):
-            for c in walk(ast.Module(body=n.body, type_ignores=[])):
-                if isinstance(c, ast.Call) and call_name(c) and call_name(
-                        c).startswith("H5"):
-                    disp[const_str(n.test.comparators[0])] = call_name(c)
+    disp = reader_dispatch(repo, EV, gi)
     ok = tr_groups == {"trace"} and disp.get("trace") == "H5TraceEvent"
     ctx.ob("R1.5", ok, "traces are written to and read from the sub-group "
            "'trace'" if ok else f"trace group: writer {sorted(tr_groups)}, "
@@ -2453,7 +2634,7 @@ def run(ctx):
     repo = ctx.repo
     ctx.rule("R1.1", "append protocol: new dataset offset 0 / length of "
              "data; offset = stored length read before resize; resize by "
-             "len(data); stores at offset + source range", minimum=16)
+             "len(data); stores at offset + source range", minimum=15)
     ctx.rule("R1.2", "chunk tiles + remainder cover [0, len) exactly once "
              "(polynomial identities in c, q, r)", minimum=7)
     ctx.rule("R1.3", "string width = max encoded length of stored objects; "
@@ -2669,6 +2850,48 @@ def _width_over_raw_lines(src):
                        "[len(line) for line in lines]")
 
 
+_CHUNK_BLOCK_FIRST = "            num_chunks = len(data) // chunk_size\n"
+_CHUNK_BLOCK_LAST = "                dset[offset+start_e:offset+stop_e] = "
+
+
+def _single_stepped_loop(src, bound="num_events"):
+    """chunk loop and remainder merged: range(0, n, c) + min()"""
+    a = src.find(_CHUNK_BLOCK_FIRST)
+    b = src.find(_CHUNK_BLOCK_LAST, a)
+    if a < 0 or b < 0:
+        return src
+    b = src.index("\n", b) + 1
+    return src[:a] + (
+        "            num_events = len(data)\n"
+        "            for start in range(0, num_events, chunk_size):\n"
+        f"                stop = min(start + chunk_size, {bound})\n"
+        "                dset[offset+start:offset+stop] = data[start:stop]\n"
+    ) + src[b:]
+
+
+def _single_stepped_loop_short(src):
+    return _single_stepped_loop(src, bound="num_events - 1")
+
+
+def _reader_dict_dispatch(src):
+    old = ('            elif key == "mask":\n'
+           "                fdata = H5MaskEvent(data)\n"
+           '            elif key == "trace":\n'
+           "                fdata = H5TraceEvent(data)\n")
+    if src.count(old) != 1:
+        return src
+    return src.replace(
+        old, "            elif key in FEATURE_WRAPPERS:\n"
+        "                fdata = FEATURE_WRAPPERS[key](data)\n") + (
+        '\n\nFEATURE_WRAPPERS = {\n    "mask": H5MaskEvent,\n'
+        '    "trace": H5TraceEvent,\n}\n')
+
+
+def _reader_dict_dispatch_without_mask(src):
+    return _reader_dict_dispatch(src).replace(
+        '    "mask": H5MaskEvent,\n', "")
+
+
 MUTANTS = [
     # R1.1
     ("ndarray: offset read after the resize", WR,
@@ -2779,6 +3002,10 @@ MUTANTS = [
      _width_before_encoding, "R1.3"),
     ("comprehension form measures the unencoded lines", WR,
      _width_over_raw_lines, "R1.3"),
+    ("merged chunk loop clipped one event short", WR,
+     _single_stepped_loop_short, "R1.2"),
+    ("dict dispatch of the reader lost the mask wrapper", EV,
+     _reader_dict_dispatch_without_mask, "R1.5"),
     # round 2
     ("H5ScalarEvent memo loaded with the caller's dtype", EV,
      ("self._array = np.asarray(self.h5ds, *args, **kwargs)",
@@ -2879,6 +3106,10 @@ TWINS = [
       "                    if tr_name in events[feat]:",
       "                for tr_name in data:\n"
       "                    if tr_name in events[feat]:")),
+    ("chunk loop and remainder merged into range(0, n, c) with min()", WR,
+     _single_stepped_loop),
+    ("reader wrappers dispatched through a module-level dict", EV,
+     _reader_dict_dispatch),
 ]
 
 # mutants that re-introduce the repaired defects (apply to the fixed tree)
